@@ -18,7 +18,7 @@ STUBS = {"extract_arg": 0, "arg_size": 4, "arg_start": 0}
 def _eval(unit, fn, env, types):
     def deref(addr, n):
         k = addr - TBASE
-        if 0 <= k <= len(types):
+        if 0 <= k < len(types) + 4:      # in a message the type string is followed by its zero padding
             return ord(types[k]) if k < len(types) else 0
         raise FD.Unknown("read outside the type string (offset %d)" % k, n)
 
@@ -30,12 +30,38 @@ def _eval(unit, fn, env, types):
                 return STUBS[name]
             if name == "rtosc_argument_string":
                 return TBASE
+            if name in ("strlen", "strspn", "strcspn", "strchr"):
+                vals = [ev.ev(a) for a in A.kids(n)[1:]]
+
+                def text(v):
+                    if isinstance(v, str):
+                        return v
+                    if isinstance(v, int) and TBASE <= v < TBASE + len(types) + 4:
+                        return types[v - TBASE:]
+                    raise FD.Unknown("string operand %r of %s" % (v, name), n)
+                if name == "strlen":
+                    return len(text(vals[0]))
+                if name == "strchr":
+                    if isinstance(vals[0], str):
+                        return 1 if vals[1] and chr(vals[1]) in vals[0] else 0
+                    t_ = text(vals[0])
+                    i_ = t_.find(chr(vals[1])) if vals[1] else len(t_)
+                    return vals[0] + i_ if i_ >= 0 else 0
+                t_, set_ = text(vals[0]), text(vals[1])
+                i_ = 0
+                while i_ < len(t_) and ((t_[i_] in set_) == (name == "strspn")):
+                    i_ += 1
+                return i_
             fns = [f for f in unit.functions.get(name, []) if unit.body(f) is not None]
             if len(fns) == 1:
                 return ev.call_function(unit, fns[0], [ev.ev(a) for a in A.kids(n)[1:]])
             raise FD.Unknown("call to %s" % name, n)
         if k == "DeclRefExpr" and (n.get("referencedDecl") or {}).get("id") not in ev.env and FD.ctype(A.qtype(n))[0] not in ("int", "ptr"):
             return ("object", (n.get("referencedDecl") or {}).get("name"))      # `return itr;` - the members are read off the slots
+        if k == "StringLiteral":
+            return A.string_literal(n)
+        if k == "ImplicitCastExpr" and n.get("castKind") == "ArrayToPointerDecay" and A.string_literal(A.kids(n)[0]) is not None:
+            return A.string_literal(A.kids(n)[0])
         if k == "InitListExpr":
             return 0                      # `rtosc_arg_val_t result = {0,{0}}`
         if k == "MemberExpr" and n.get("name") == "val":
